@@ -38,6 +38,8 @@ def main():
                 res["longer"] = True
             meta["recheck"] = res
             meta["detected_now"] = res.get("exit") == 1
+            if meta.get("benign"):
+                meta["false_alarm_now"] = res.get("exit") != 0
             json.dump(meta, open(mp, "w"), indent=1)
             print(d, res.get("exit"), res.get("signatures"), flush=True)
         rows.append(meta)
@@ -56,6 +58,8 @@ def main():
                 "of the quick check | verdict now | classes that fire |\n"
                 "|---|---|---|---|---|---|\n")
         for m in rows:
+            if m.get("benign"):
+                continue
             first = m.get("check_quick", {})
             now = m.get("recheck", first)
             longer = m.get("check_longer")
@@ -69,6 +73,21 @@ def main():
                 m["id"], m["property"], m.get("needs", "").replace("|", "/"),
                 fv, nv + (" (" + m["note"] + ")" if m.get("note") else ""),
                 ", ".join(sigs)))
+        ben = [m for m in rows if m.get("benign")]
+        if ben:
+            f.write("\n## Behaviour-preserving changes (false-alarm probes)\n\n"
+                    "Sub-agents asked for a substantial refactoring / other "
+                    "valid algorithm under which the property still holds. "
+                    "The checks must stay silent on them.\n\n"
+                    "| id | property | what changed | quick check | longer "
+                    "run | verdict |\n|---|---|---|---|---|---|\n")
+            for m in ben:
+                now = m.get("recheck", m.get("check_quick", {}))
+                lon = m.get("check_longer", {})
+                f.write("| %s | %s | %s | exit %s | exit %s | %s |\n" % (
+                    m["id"], m["property"],
+                    m.get("needs", "").replace("|", "/"), now.get("exit"),
+                    lon.get("exit"), m.get("note", "silent")))
     print("README.md written (%d changes)" % len(rows))
 
 
